@@ -116,3 +116,41 @@ def _domain_set_value(n):
 
 DOMAIN = dict(globals().get('DOMAIN', {}))
 DOMAIN[A + 'DSG.set_des_var_value'] = _domain_set_value
+
+
+# ---------------------------------------------------------------- DSG.des_var_nodes (C16, C13)
+# of the design-variable nodes tied together by a choice constraint only the first one (in the graph's node order)
+# gets a design variable; every other design-variable node gets its own
+CLASSES['DSG']['all_des_var_nodes'] = 'List[Ref[DesignVariableNode]]'     # property: ordered design-variable nodes
+ALL = 'self.all_des_var_nodes'
+# SET(x): the constraint set a node belongs to (the dict of the function: index of the last constraint listing it)
+CONTRACTS[A + 'DSG.des_var_nodes'] = dict(
+    properties=['C16', 'C13'],
+    types={'self': 'Ref[DSG]'},
+    returns='List[Ref[DesignVariableNode]]',
+    locals={'seen_constraint_sets': 'Set[Int]', 'mirror_con_dvs': 'Dict[Ref[DesignVariableNode],Int]',
+            'des_var_nodes': 'List[Ref[DesignVariableNode]]', 'i_set': 'Optional[Int]'},
+    post_locals=['mirror_con_dvs'],
+    requires={'nodes-listed-once': f'forall(a, 0, len({ALL}), forall(b, 0, len({ALL}), implies(a != b, {ALL}[a] != {ALL}[b])))'},
+    defs={
+        'constrained': (('x',), 'exists(c, 0, len(self._choice_constraints), x in self._choice_constraints[c].nodes)'),
+        'first_of_its_set': (('k', 'M'), f'forall(j, 0, k, not ({ALL}[j] in M and M[{ALL}[j]] == M[{ALL}[k]]))'),
+    },
+    loops={'for node in self.all_des_var_nodes': dict(index='k', invariant={
+        'dict-is-the-constraint-membership': "forall('x:Ref[DesignVariableNode]', (x in mirror_con_dvs) == constrained(x))",
+        'dict-values-are-constraint-indices': "forall('x:Ref[DesignVariableNode]', implies(x in mirror_con_dvs, 0 <= mirror_con_dvs[x] and mirror_con_dvs[x] < len(self._choice_constraints) and x in self._choice_constraints[mirror_con_dvs[x]].nodes))",
+        'seen-sets': f"forall('s:Int', (s in seen_constraint_sets) == exists(j, 0, k, {ALL}[j] in mirror_con_dvs and mirror_con_dvs[{ALL}[j]] == s))",
+        'every-kept-node-qualifies': f"forall(q, 0, len(des_var_nodes), exists(j, 0, k, {ALL}[j] == des_var_nodes[q] and (not ({ALL}[j] in mirror_con_dvs) or first_of_its_set(j, mirror_con_dvs))))",
+        'every-unconstrained-node-kept': f"forall(j, 0, k, implies(not ({ALL}[j] in mirror_con_dvs), {ALL}[j] in des_var_nodes))",
+        'every-first-node-of-a-set-kept': f"forall(j, 0, k, implies({ALL}[j] in mirror_con_dvs and first_of_its_set(j, mirror_con_dvs), {ALL}[j] in des_var_nodes))",
+    })},
+    ensures={
+        'unconstrained-nodes-all-kept': ('property', f'forall(j, 0, len({ALL}), implies(not constrained({ALL}[j]), {ALL}[j] in result))'),
+        'first-node-of-a-constraint-set-kept-the-others-not': ('property',
+            f'forall(j, 0, len({ALL}), implies(constrained({ALL}[j]), ({ALL}[j] in result) == first_of_its_set(j, final_mirror_con_dvs)))'),
+        'set-of-a-node-is-a-constraint-listing-it': ('property',
+            "forall('x:Ref[DesignVariableNode]', implies(constrained(x), x in final_mirror_con_dvs and x in self._choice_constraints[final_mirror_con_dvs[x]].nodes))"),
+        'nothing-else': ('property', f'forall(q, 0, len(result), exists(j, 0, len({ALL}), {ALL}[j] == result[q]))'),
+    },
+    modifies=[],
+)
